@@ -154,6 +154,165 @@ Example C15_reused_context_nonvacuous :
   end.
 Proof. exact reused_context_example. Qed.
 
+(* ---------------------------------------------------------------- any granularity, failing commits
+   The same statements for the general domain (DefragGranProofs.v): the blocks' metadata carry any
+   granularity handler gh (HFake, or HVam = vam's blockBufferImageGranularity) and any power-of-two
+   bufferImageGranularity gg; allocation kinds are arbitrary (for the page statement of C07: 1..5);
+   the block list may REFUSE any commit (CommitDefragAllocationRequest returns an error): the
+   planner is parameterised by an environment Env and an attempt function att, consulted once per
+   commit attempt; a refused attempt takes the "no" branch (allocInOtherBlock goes to the next
+   candidate block, allocIfLowerOffset returns false).  WFg gh gg is the block-list invariant of the
+   general domain: as WF, every block has granularity gg (and handler gh when 1 < gg), and the
+   sizes in the allocation table are fixed points of RoundUpAllocRequest for their kind (the block
+   list stores AllocationRequest.Size, as vam does).  The statements above are the instance
+   granularity 1, att = always succeed: C15_wf_is_gran1, C15_collect_is_collect_f, and the
+   re-derivations at the end of this section. *)
+From Arsenal Require DefragGranProofs.
+Module General.
+Import Gran GranInv DefragGranProofs.
+
+Theorem C15_wf_is_gran1 : forall gh st, DefragProofs.WF st <-> WFg gh 1 st.
+Proof. exact wf_gran1_iff. Qed.
+Print Assumptions C15_wf_is_gran1.
+
+Theorem C15_collect_is_collect_f : forall (E : Type) st c p (env : E),
+  res_f (collect_moves_f E att_ok st c p env) = collect_moves st c p /\
+  env_f (collect_moves_f E att_ok st c p env) = env.
+Proof. exact collect_moves_f_all_ok. Qed.
+Print Assumptions C15_collect_is_collect_f.
+
+(* any attempt function that succeeds on a set P of environments it does not leave gives the old
+   planner; the harness protocol with refused commits, without a failure list, is the old protocol *)
+Theorem C15_collect_is_collect_f_on : forall (E : Type) att (P : E -> Prop),
+  (forall e s d, P e -> snd (att e s d) = true /\ P (fst (att e s d))) ->
+  forall st c p env, P env ->
+  res_f (collect_moves_f E att st c p env) = collect_moves st c p /\ P (env_f (collect_moves_f E att st c p env)).
+Proof. exact collect_moves_f_P. Qed.
+Print Assumptions C15_collect_is_collect_f_on.
+
+Theorem C15_no_failures_is_wstep : forall w o,
+  fst (fst (wstep_f (mkWf w []) (OpF o))) = mkWf (fst (wstep w o)) [] /\
+  snd (fst (wstep_f (mkWf w []) (OpF o))) = snd (wstep w o).
+Proof. exact wstep_f_no_failures. Qed.
+Print Assumptions C15_no_failures_is_wstep.
+
+Theorem C15_collect_within_limits_gran : forall gh gg Env att st c mb ma (env : Env),
+  WFg gh gg st -> 0 <= ma -> 0 <= mb -> c_moves c = [] ->
+  let res := res_f (collect_moves_f Env att st c (pass_init mb ma) env) in
+  snd res <> WPanic PCounters /\
+  zlen (cs_moves (fst res)) <= ma /\ zsum (map m_size (cs_moves (fst res))) <= mb /\
+  ps_allocs_moved (p_stats (cs_pass (fst res))) = zlen (cs_moves (fst res)) /\
+  ps_bytes_moved (p_stats (cs_pass (fst res))) = zsum (map m_size (cs_moves (fst res))).
+Proof. intros gh gg. exact (collect_within_limits_f gh gg QT KT QT_step). Qed.
+Print Assumptions C15_collect_within_limits_gran.
+
+Theorem C15_moves_forward_gran : forall gh gg Env att st c mb ma (env : Env),
+  WFg gh gg st -> 0 <= ma -> 0 <= mb -> c_moves c = [] ->
+  forall m, In m (cs_moves (fst (res_f (collect_moves_f Env att st c (pass_init mb ma) env)))) ->
+    In (m_srcidx m, m_srcblk m) (indexed st) /\ In (m_dstidx m, m_dstblk m) (indexed st) /\
+    (m_dstidx m < m_srcidx m \/ (m_dstblk m = m_srcblk m /\ m_dstoff m < m_srcoff m)).
+Proof. intros gh gg. exact (moves_forward_f gh gg QT KT QT_step). Qed.
+Print Assumptions C15_moves_forward_gran.
+
+(* the attempt log: the committed attempts, in order, are exactly the moves the pass added; every
+   attempt (refused or committed) names a block of the list; sources are never immovable blocks *)
+Theorem C15_attempt_log : forall Env att st c p (env : Env),
+  0 <= c_immovable c ->
+  let X := collect_moves_f Env att st c p env in
+  cs_moves (fst (res_f X)) = c_moves c ++ log_moves (log_f X) /\
+  Forall (fun a => In (at_dst a) (map fst (d_blocks st))) (log_f X) /\
+  Forall (fun m => c_immovable c <= m_srcidx m) (log_moves (log_f X)).
+Proof. exact collect_moves_f_log. Qed.
+Print Assumptions C15_attempt_log.
+
+Theorem C15_stats_match_gran : forall gh gg st c p ds ord,
+  WFg gh gg st -> Forall (reserved st) (c_moves c) -> NoDup (map m_src (c_moves c) ++ map m_tmp (c_moves c)) ->
+  ps_allocs_moved (p_stats p) = zlen (c_moves c) -> ps_bytes_moved (p_stats p) = zsum (map m_size (c_moves c)) ->
+  r_kind (complete_pass st c p ds ord) = ROk /\
+  ps_allocs_moved (p_stats (r_pass (complete_pass st c p ds ord))) = zlen (copies (c_moves c) ds) /\
+  ps_bytes_moved (p_stats (r_pass (complete_pass st c p ds ord))) = zsum (map m_size (copies (c_moves c) ds)).
+Proof.
+  intros gh gg st c p ds ord HW Hres Hnd Ha Hb.
+  exact (conj (complete_pass_ok gh gg QT KT QT_step st c p ds ord HW Hres Hnd)
+              (stats_match gh gg QT KT QT_step st c p ds ord HW Hres Hnd Ha Hb)).
+Qed.
+Print Assumptions C15_stats_match_gran.
+
+Theorem C15_run_stats_accumulate_gran : forall gh gg fuel st c mb ma acc n log st' k acc' log',
+  WFg gh gg st -> c_moves c = [] -> 0 <= ma -> 0 <= mb ->
+  run_copy fuel st c mb ma acc n log = RunDone st' k acc' log' ->
+  ps_allocs_moved acc' - log_allocs log' = ps_allocs_moved acc - log_allocs log /\
+  ps_bytes_moved acc' - log_bytes log' = ps_bytes_moved acc - log_bytes log /\
+  WFg gh gg st'.
+Proof. intros gh gg. exact (run_stats_accumulate gh gg QT KT QT_step). Qed.
+Print Assumptions C15_run_stats_accumulate_gran.
+
+(* termination and completion of an undisturbed run with any decisions and any refused commits *)
+Theorem C15_run_terminates_gran : forall gh gg Env att st c mb ma dec (env : Env) acc n log,
+  WFg gh gg st -> c_moves c = [] -> 0 <= c_immovable c -> 0 <= ma -> 0 <= mb -> (c_algo c = 1 \/ c_algo c = 2) ->
+  exists fuel, run_any_f Env att fuel st c mb ma dec env acc n log <> RunOutOfFuel.
+Proof. intros gh gg. exact (run_any_f_terminates gh gg QT KT QT_step). Qed.
+Print Assumptions C15_run_terminates_gran.
+
+Theorem C15_run_completes_gran : forall gh gg Env att st c mb ma dec (env : Env) acc n log,
+  WFg gh gg st -> c_moves c = [] -> 0 <= c_immovable c -> 0 <= ma -> 0 <= mb -> (c_algo c = 1 \/ c_algo c = 2) ->
+  exists fuel st' k acc' log', run_any_f Env att fuel st c mb ma dec env acc n log = RunDone st' k acc' log' /\ WFg gh gg st'.
+Proof. intros gh gg. exact (run_f_completes gh gg QT KT QT_step). Qed.
+Print Assumptions C15_run_completes_gran.
+
+(* without refused commits (run_any), also for the algorithms that propose nothing *)
+Theorem C15_run_terminates_gran_all_commit : forall gh gg st c mb ma dec acc n log,
+  WFg gh gg st -> c_moves c = [] -> 0 <= c_immovable c -> 0 <= ma -> 0 <= mb ->
+  exists fuel, run_any fuel st c mb ma dec acc n log <> RunOutOfFuel.
+Proof. intros gh gg. exact (run_terminates gh gg QT KT QT_step). Qed.
+Print Assumptions C15_run_terminates_gran_all_commit.
+
+(* a collecting pass never panics: ANY pass state that is running (not only a fresh pass), any att *)
+Theorem C15_collect_never_panics_gran : forall gh gg Env att st c p (env : Env),
+  WFg gh gg st -> pass_running p -> (c_algo c = 1 \/ c_algo c = 2) ->
+  forall w, snd (res_f (collect_moves_f Env att st c p env)) <> WPanic w.
+Proof. intros gh gg. exact (collect_f_never_panics gh gg QT KT QT_step). Qed.
+Print Assumptions C15_collect_never_panics_gran.
+
+(* the old statements re-derived from the general ones (granularity 1, every commit succeeds) *)
+Theorem C15_moves_forward_from_gran : forall st c mb ma,
+  DefragProofs.WF st -> 0 <= ma -> 0 <= mb -> c_moves c = [] ->
+  forall m, In m (cs_moves (fst (collect_moves st c (pass_init mb ma)))) ->
+    In (m_srcidx m, m_srcblk m) (indexed st) /\ In (m_dstidx m, m_dstblk m) (indexed st) /\
+    (m_dstidx m < m_srcidx m \/ (m_dstblk m = m_srcblk m /\ m_dstoff m < m_srcoff m)).
+Proof.
+  intros st c mb ma HW Hma Hmb Hc m Hin.
+  apply (C15_moves_forward_gran HFake 1 unit att_ok st c mb ma tt (proj1 (wf_gran1_iff HFake st) HW) Hma Hmb Hc).
+  rewrite (proj1 (collect_moves_f_all_ok unit st c (pass_init mb ma) tt)). exact Hin.
+Qed.
+Print Assumptions C15_moves_forward_from_gran.
+
+Theorem C15_run_completes_from_gran : forall st c mb ma dec acc n log,
+  DefragProofs.WF st -> c_moves c = [] -> 0 <= c_immovable c -> 0 <= ma -> 0 <= mb -> (c_algo c = 1 \/ c_algo c = 2) ->
+  exists fuel st' k acc' log', run_any fuel st c mb ma dec acc n log = RunDone st' k acc' log' /\ DefragProofs.WF st'.
+Proof.
+  intros st c mb ma dec acc n log HW Hc Hi Hma Hmb Ha.
+  destruct (run_completes HFake 1 QT KT QT_step st c mb ma dec acc n log (proj1 (wf_gran1_iff HFake st) HW) Hc Hi Hma Hmb Ha)
+    as (fuel & st' & k & acc' & log' & E & HW').
+  exists fuel, st', k, acc', log'. split; [exact E|]. exact (proj2 (wf_gran1_iff HFake st') HW').
+Qed.
+Print Assumptions C15_run_completes_from_gran.
+
+(* non-vacuity: vam's handler at granularity 1024, mixed kinds; page-rounded images (stored size
+   1024); the Full algorithm proposes two moves; with the first commit refused the log shows the
+   refused attempt and the remaining move *)
+Example C15_gran_nonvacuous :
+  WFg HVam 1024 exg_world /\
+  (let X := collect_moves exg_world (ctx_init (mkC 0 [] 0) 2) (pass_init max_int max_int) in
+   map (fun m => (m_src m, m_dstblk m, m_dstoff m, m_size m)) (cs_moves (fst X)) = [(5%nat, 0, 2048, 1024); (4%nat, 0, 100, 50)] /\
+   snd X = WCont) /\
+  (let X := collect_moves_f (nat * list Z) att_list exg_world (ctx_init (mkC 0 [] 0) 2) (pass_init max_int max_int) (O, [0]) in
+   map (fun a => match a with AtFail s d => (true, s, d) | AtOk m => (false, m_src m, m_dstblk m) end) (log_f X) =
+     [(true, 5%nat, 0); (false, 4%nat, 0)] /\
+   snd (res_f X) = WCont /\ length (d_table (cs_st (fst (res_f X)))) = 7%nat).
+Proof. split; [exact (wfp_wfg 1024 _ exg_world_wf)|split; [exact exg_collect|exact exg_collect_fail]]. Qed.
+End General.
+
 (* ---------------------------------------------------------------- second tie: translated code
    GenLeaf.v is REGENERATED from /repo's Go source on every run (tools/go2coq, explicit Go integer
    semantics GoSem.v); the theorems below say that the generated definitions equal the model's
